@@ -1,6 +1,7 @@
 \* exhaustive: every multiset of 3 sources out of the quick list, every merge order, refusals included
 CONSTANTS NSrc = 3  NLab = 3  Fissile = {1, 2}  MaxLevel = 6
 CONSTANT SrcList <- ListQuick
+CONSTANT IdOf <- IdOf3
 INIT Init
 NEXT Next
 CONSTRAINT Bound
